@@ -114,6 +114,21 @@ type c18Server struct {
 	buf  []byte
 	eof  bool
 	end  string // why fill failed: "eof" (the client closed) or "timeout"
+	used int    // bytes of buf consumed by the last serve that returned "done"
+	// one-shot modifiers of the next tagged OK (session events)
+	code       bool   // carry `[CAPABILITY <caps>]`
+	plainLogin bool   // LOGIN answered without the capability code
+	extra      string // untagged lines sent in front of it
+}
+
+// advance drops what the last serve consumed
+func (s *c18Server) advance() {
+	if s.used <= len(s.buf) {
+		s.buf = append([]byte(nil), s.buf[s.used:]...)
+	} else {
+		s.buf = nil
+	}
+	s.used = 0
 }
 
 // fill blocks for more client bytes; false at end of stream or deadline
@@ -182,6 +197,7 @@ func (s *c18Server) serve(replyTag, stopTag, script string) (wire []byte, acts [
 			// client's buffer) still belong to the probe
 			if stopTag != "" && bytes.HasSuffix(line, []byte(stopTag+" NOOP")) {
 				s.conn.Write([]byte(stopTag + " OK done\r\n"))
+				s.used = lineEnd
 				return s.buf[:lineEnd-2-len(stopTag+" NOOP")], acts, "done"
 			}
 			cmdTag, cmdLine = c18Tag(line), line
@@ -233,17 +249,20 @@ func (s *c18Server) serve(replyTag, stopTag, script string) (wire []byte, acts [
 		// the command is complete
 		if cmdTag == replyTag && !replied {
 			replied = true
-			switch c18Word(cmdLine, 1) {
-			case "ENABLE":
-				s.conn.Write([]byte("* ENABLED UTF8=ACCEPT\r\n" + cmdTag + " OK done\r\n"))
-			case "CAPABILITY":
-				s.conn.Write([]byte("* CAPABILITY " + s.caps + "\r\n" + cmdTag + " OK done\r\n"))
-			case "LOGIN":
-				s.conn.Write([]byte(cmdTag + " OK [CAPABILITY " + s.caps + "] done\r\n"))
-			default:
-				s.conn.Write([]byte(cmdTag + " OK done\r\n"))
+			word := c18Word(cmdLine, 1)
+			pre, fin := s.extra, cmdTag+" OK done\r\n"
+			switch {
+			case word == "ENABLE":
+				pre += "* ENABLED UTF8=ACCEPT\r\n"
+			case word == "CAPABILITY":
+				pre += "* CAPABILITY " + s.caps + "\r\n"
+			case word == "LOGIN" && !s.plainLogin, s.code:
+				fin = cmdTag + " OK [CAPABILITY " + s.caps + "] done\r\n"
 			}
+			s.extra, s.code, s.plainLogin = "", false, false
+			s.conn.Write([]byte(pre + fin))
 			if stopTag == "" {
+				s.used = lineEnd
 				return s.buf[:lineEnd], acts, "done"
 			}
 		}
@@ -446,7 +465,7 @@ func c18RunSeq(caps string, enabled bool, pre *c18Job, kind string, args []strin
 		case <-time.After(c18Deadline):
 			return fail("noenable")
 		}
-		s.buf = nil
+		s.advance()
 		tag = 2
 	}
 	if pre != nil {
@@ -464,7 +483,7 @@ func c18RunSeq(caps string, enabled bool, pre *c18Job, kind string, args []strin
 		case <-time.After(c18Deadline):
 			return fail("noprelude")
 		}
-		s.buf = nil
+		s.advance()
 		tag += 2
 	}
 	res := make(chan string, 1)
@@ -496,6 +515,163 @@ func c18RunSeq(caps string, enabled bool, pre *c18Job, kind string, args []strin
 	return caseLine{kind: lineKind, fields: append(fields, c18rle(wire), actStr, status, result)}
 }
 
+// c18RunSess: a session prefix (events that set or change what the server advertised / enabled),
+// then one probe command. Events, ';'-separated: `g:<caps>` greeting; `e` ENABLE UTF8=ACCEPT
+// exchange; `u:<caps>` UNAUTHENTICATE answered OK [CAPABILITY caps]; `U:<caps>` answered plain OK,
+// the client's own CAPABILITY command answered with caps; `c:<caps>` an untagged CAPABILITY (during a
+// NOOP); `l:<caps>` / `L:<caps>` LOGIN answered with / without the capability code (then the
+// client's CAPABILITY command); `h:<caps>` an APPEND holds the encoder (literal open), the probe is
+// issued from a second goroutine and queues behind it, the server announces caps, the client
+// processes that, only then the APPEND is finished.
+func c18RunSess(events string, kind string, args []string, script string) caseLine {
+	probe := c18ProbeByKind(kind)
+	evs := strings.Split(events, ";")
+	cli, srv := memPipe()
+	srv.SetReadDeadline(time.Now().Add(c18Deadline))
+	s := &c18Server{conn: srv}
+	rl := make([]string, len(args))
+	for i, a := range args {
+		rl[i] = c18rle([]byte(a))
+	}
+	tag := 0
+	fields := func() []string {
+		return []string{events, strconv.Itoa(tag + 1), kind, strings.Join(rl, "|"), script}
+	}
+	fail := func(status string) caseLine {
+		return caseLine{kind: "sess", fields: append(fields(), "-", "-", status, "err")}
+	}
+	capText := func(ev string) string { return strings.ReplaceAll(ev[2:], ",", " ") }
+	if len(evs) == 0 || !strings.HasPrefix(evs[0], "g:") {
+		return fail("badevents")
+	}
+	s.caps = capText(evs[0])
+	srv.Write([]byte("* PREAUTH [CAPABILITY " + s.caps + "] ready\r\n"))
+	c := imapclient.New(cli, nil)
+	defer func() {
+		srv.Close()
+		cli.Close()
+	}()
+	if err := c.WaitGreeting(); err != nil {
+		return fail("nogreeting")
+	}
+	// one command of the prefix: issue it, serve it, wait until the client has digested the answer
+	exchange := func(issue func(), n int) bool {
+		done := make(chan struct{})
+		go func() { issue(); close(done) }()
+		for i := 0; i < n; i++ {
+			tag++
+			if _, _, st := s.serve(fmt.Sprintf("T%d", tag), "", ""); st != "done" {
+				return false
+			}
+			s.advance()
+		}
+		select {
+		case <-done:
+		case <-time.After(c18Deadline):
+			return false
+		}
+		return srv.awaitPeerIdle(c18Deadline) == "idle"
+	}
+	var release chan struct{}
+	var holderDone chan struct{}
+	for _, ev := range evs[1:] {
+		ok := true
+		switch {
+		case ev == "e":
+			ok = exchange(func() { c.Enable(imap.CapUTF8Accept).Wait() }, 1)
+		case strings.HasPrefix(ev, "u:"):
+			s.caps, s.code = capText(ev), true
+			ok = exchange(func() { c.Unauthenticate().Wait() }, 1)
+		case strings.HasPrefix(ev, "U:"):
+			s.caps = capText(ev)
+			ok = exchange(func() { c.Unauthenticate().Wait(); c.Caps() }, 2)
+		case strings.HasPrefix(ev, "c:"):
+			s.caps = capText(ev)
+			s.extra = "* CAPABILITY " + s.caps + "\r\n"
+			ok = exchange(func() { c.Noop().Wait() }, 1)
+		case strings.HasPrefix(ev, "l:"):
+			s.caps = capText(ev)
+			ok = exchange(func() { c.Login("u", "p").Wait() }, 1)
+		case strings.HasPrefix(ev, "L:"):
+			s.caps, s.plainLogin = capText(ev), true
+			ok = exchange(func() { c.Login("u", "p").Wait(); c.Caps() }, 2)
+		case strings.HasPrefix(ev, "h:"):
+			// must be the last event; handled below
+			release, holderDone = make(chan struct{}), make(chan struct{})
+			opened := make(chan struct{})
+			go func() {
+				cmd := c.Append("x", 3, nil) // non-synchronising under the current set: returns with the encoder held
+				close(opened)
+				<-release
+				cmd.Write([]byte("xyz"))
+				cmd.Close()
+				cmd.Wait()
+				close(holderDone)
+			}()
+			select {
+			case <-opened:
+			case <-time.After(c18Deadline):
+				return fail("noholder")
+			}
+			tag++
+		default:
+			return fail("badevents")
+		}
+		if !ok {
+			return fail("noprefix")
+		}
+	}
+	holderTag := tag
+	res := make(chan string, 1)
+	go func() {
+		r := c18Result(probe.run(c, args))
+		c.Noop().Wait()
+		res <- r
+	}()
+	if release != nil {
+		// the probe is now queued behind the open APPEND; let it get there, then change the
+		// capabilities, wait until the client has processed them, then finish the APPEND
+		time.Sleep(3 * time.Millisecond)
+		last := evs[len(evs)-1]
+		s.caps = capText(last)
+		srv.Write([]byte("* CAPABILITY " + s.caps + "\r\n"))
+		if srv.awaitPeerIdle(c18Deadline) != "idle" {
+			return fail("noprefix")
+		}
+		close(release)
+		if _, _, st := s.serve(fmt.Sprintf("T%d", holderTag), "", ""); st != "done" {
+			return fail("noholder")
+		}
+		s.advance()
+	}
+	wire, acts, status := s.serve(fmt.Sprintf("T%d", tag+1), fmt.Sprintf("T%d", tag+2), script)
+	wire = append([]byte(nil), wire...)
+	if status != "done" {
+		srv.Close()
+		cli.Close()
+	}
+	result := "hang"
+	select {
+	case result = <-res:
+	case <-time.After(c18Deadline):
+	}
+	if holderDone != nil {
+		select {
+		case <-holderDone:
+		case <-time.After(c18Deadline):
+		}
+	}
+	as := make([]string, len(acts))
+	for i, a := range acts {
+		as[i] = fmt.Sprintf("%d:%c", a.off, a.kind)
+	}
+	actStr := "-"
+	if len(as) > 0 {
+		actStr = strings.Join(as, ",")
+	}
+	return caseLine{kind: "sess", fields: append(fields(), c18rle(wire), actStr, status, result)}
+}
+
 func replayC18(e *emitter, kind string, f []string) {
 	switch kind {
 	case "cmd":
@@ -507,6 +683,16 @@ func replayC18(e *emitter, kind string, f []string) {
 			args = append(args, string(c18unrle(a)))
 		}
 		l := c18Run(f[0], f[1] == "1", f[2], args, f[4])
+		e.emit(l.kind, l.fields...)
+	case "sess":
+		if len(f) < 5 {
+			return
+		}
+		var args []string
+		for _, a := range strings.Split(f[3], "|") {
+			args = append(args, string(c18unrle(a)))
+		}
+		l := c18RunSess(f[0], f[2], args, f[4])
 		e.emit(l.kind, l.fields...)
 	case "seq":
 		if len(f) < 8 {
@@ -856,6 +1042,83 @@ func genC18(e *emitter, tier string, seed uint64) {
 			}
 		}
 	}
+	// 4. sessions: the negotiated state changes between the greeting and the probe
+	type sessJob struct {
+		events string
+		kind   string
+		args   []string
+	}
+	var sess []sessJob
+	sets := map[string]string{"1": "IMAP4rev1", "m": "IMAP4rev1,LITERAL-", "p": "IMAP4rev1,LITERAL+", "2": "IMAP4rev2",
+		"12": "IMAP4rev1,IMAP4rev2"}
+	u8 := ",ENABLE,UTF8=ACCEPT"
+	sessProbes := []sessJob{
+		{kind: "login", args: []string{"jos\xc3\xa9", "secret"}},
+		{kind: "login", args: []string{"a\x00b", "x"}},
+		{kind: "login", args: []string{c18Rep("a", 4097), "x"}},
+		{kind: "getquota", args: []string{"a\nb"}},
+		{kind: "select", args: []string{c18Rep("a", 4097)}},
+		{kind: "search-body", args: []string{"caf\xc3\xa9"}},
+		{kind: "append", args: []string{"x", "xyz"}},
+		{kind: "append", args: []string{"x", c18Rep("m", 4097)}},
+	}
+	addSess := func(events string, probes []sessJob) {
+		for _, p := range probes {
+			sess = append(sess, sessJob{events, p.kind, p.args})
+		}
+	}
+	// ENABLE does not survive UNAUTHENTICATE (answered with and without a capability code), unless
+	// it is issued again
+	for _, b := range []string{"1", "m", "p"} {
+		base := sets[b] + u8
+		for _, un := range []string{"u:", "U:"} {
+			addSess("g:"+base+";e;"+un+base, sessProbes)
+			addSess("g:"+base+";e;"+un+base+";e", sessProbes[:1])
+			addSess("g:"+base+";e;"+un+sets["1"], sessProbes[:2])
+			addSess("g:"+base+";"+un+base, sessProbes[:1])
+		}
+		addSess("g:"+base+";e;c:"+base, sessProbes[:1]) // a capability list alone resets nothing
+	}
+	// a later capability list replaces the earlier one: untagged CAPABILITY, LOGIN with and without
+	// the code, and a list that arrives while the probe waits for the encoder
+	for _, from := range []string{"1", "m", "p", "2", "12"} {
+		for _, to := range []string{"1", "m", "p", "2"} {
+			if from == to {
+				continue
+			}
+			for _, how := range []string{"c:", "l:", "L:"} {
+				addSess("g:"+sets[from]+";"+how+sets[to], sessProbes[:5])
+				if how == "c:" {
+					addSess("g:"+sets[from]+";"+how+sets[to], sessProbes[5:])
+				}
+			}
+			if from != "1" {
+				addSess("g:"+sets[from]+";h:"+sets[to], sessProbes[:5])
+				addSess("g:"+sets[from]+";h:"+sets[to], sessProbes[6:])
+			}
+		}
+	}
+	for _, b := range []string{"m", "p"} {
+		addSess("g:"+sets[b]+u8+";e;h:"+sets["1"], sessProbes[:2])
+	}
+	defer parCases(e, len(sess), func(i int) []caseLine {
+		q := sess[i]
+		first := c18RunSess(q.events, q.kind, q.args, "p")
+		nsync := 0
+		if first.fields[6] != "-" {
+			nsync = len(strings.Split(first.fields[6], ","))
+		}
+		ev := strings.Split(q.events, ";")
+		first.counts = []string{"sess:" + ev[len(ev)-1][:1] + ">" + q.kind}
+		out := []caseLine{first}
+		for _, sc := range c18Scripts(nsync) {
+			l := c18RunSess(q.events, q.kind, q.args, sc)
+			l.counts = []string{"script:" + sc}
+			out = append(out, l)
+		}
+		return out
+	})
+
 	defer parCases(e, len(seqs), func(i int) []caseLine {
 		q := seqs[i]
 		l := c18RunSeq(q.caps, q.enabled, &q.pre, q.next.kind, q.next.args, q.next.script)
